@@ -122,7 +122,7 @@ CHECKS = {
              'grammar object that an accessor indexes with a PIdx/TIdx/RIdx are found from the accessors\' MIR; in the constructor '
              'every vector flowing into such a field must end with the length of its class leader (the vector whose len() '
              'becomes prods_len/tokens_len/rules_len): same initial length and pushes in the same straight-line regions, or '
-             'a snapshot of / one push per element of the completed leader. The string parse_string assembles chunk by chunk is only appended to inside its scan loop.',
+             'a snapshot of / one push per element of the completed leader. The string parse_string assembles chunk by chunk is only appended to inside its scan loop. No character class of a token regex mixes the two quote characters (a quoted token ends at its own kind of quote).',
         note='The round-trip clauses of C10 (rules, symbols, precedences, %epp, actions are the ones written in the '
              'source, whatever the layout) are NOT decided beyond the span and table clauses above. Trusted: ' + TB,
         technique='lock-step growth analysis of parallel tables over MIR (accessor-derived index classes, per-region push counting, def-use)',
@@ -170,7 +170,7 @@ CHECKS = {
              'the flags the lexer was built with and falls back to that same field of the defaults; every generated parser run '
              '(one per action kind) passes the builder\'s recovery setting to RTParserBuilder::recoverer; the generated reader '
              'selects, per SerialisationFormat variant, the integer encoding the builder wrote that variant with; every generated '
-             'Lexeme arm of the action wrappers answers Err for a faulty (inserted) lexeme and Ok otherwise.',
+             'Lexeme arm of the action wrappers answers Err for a faulty (inserted) lexeme and Ok otherwise. Every quoting function of a workspace enum writes, for each variant, that variant\'s own name into the generated path.',
         note='NOT decided: that the generated and the run-time pipeline produce the same lexemes, values, errors and repairs for '
              'every input (translation validation per generated program; needs both to be run). $-substitution and wrapper '
              'argument order are not decided either (a slip there fails to compile or fails every compile-time test). Trusted: '
